@@ -37,7 +37,7 @@ def run(tier, replay):
             "states": mc.distinct, "transitions": mc.generated,
             "traces_validated_against_impl": n["Conc"] + n["Serial"], "serial_references": n["Serial"], "concurrent_responses": n["Conc"],
             "samples": [{"request": "form_post_short", "after": "form_post_long on the same worker", "compared": "status, headers minus Date-Unix-Epoch-Nanos, body (form echoes as line sets)"}],
-            "rule": "MC_Server: EnvFsUnchanged (no action writes configuration or file system) for all interleavings, N=2, 5 connections; wire: 24 distinct requests (files incl. 300 KB, "
+            "rule": "[clients abandoning a 24 MiB transfer in every second mix; one-at-a-time sweep after the mixes] MC_Server: EnvFsUnchanged (no action writes configuration or file system) for all interleavings, N=2, 5 connections; wire: 24 distinct requests (files incl. 300 KB, "
                     "single/multi ranges, HEAD/OPTIONS, three form endpoints with distinct secrets, 404/400/416) each answered alone by a freshly started server, then multisets of %d "
                     "requests in %d rounds against servers with %s workers (barrier release, long-before-short ordering, staggered arrival); every concurrent response must equal its serial one" % (width, rounds, workers),
         }
